@@ -57,14 +57,17 @@ struct Globals {
     --live;
   }
   // Called at each throwing-capable event
+  bool announceInjection = false;  // set by the drivers whose transcripts are line oriented (vecdrv)
   std::string lastInjected;  // which throwing-capable event the fault injection made throw in the current step
   void tick(const char *what) {
     ++throwingEvents;
     if (countdown == 0) {
       countdown = -1;
       lastInjected = what;
-      std::printf("INJ %s\n", what);  // survives a crash of the operation (stdout is flushed)
-      std::fflush(stdout);
+      if (announceInjection) {
+        std::printf("INJ %s\n", what);  // survives a crash of the operation (stdout is flushed)
+        std::fflush(stdout);
+      }
       throw std::runtime_error(std::string("injected:") + what);
     }
     if (countdown > 0) --countdown;
@@ -74,8 +77,10 @@ struct Globals {
     if (countdown == 0) {
       countdown = -1;
       lastInjected = "allocate";
-      std::printf("INJ allocate\n");
-      std::fflush(stdout);
+      if (announceInjection) {
+        std::printf("INJ allocate\n");
+        std::fflush(stdout);
+      }
       throw std::bad_alloc();
     }
     if (countdown > 0) --countdown;
